@@ -17,7 +17,10 @@ PROPS["C08"] = dict(
                "the last UPDATE sent, a keepalive tick at the very instant of expiry, either refusal code when several apply. Hold time 0 on gobgp's side is "
                "patched in white-box (the API maps 0 to the default; a configuration file can say 0). With the route-target family negotiated gobgp's "
                "export filter withholds routes without matching route target, so only the rtc route itself is required outbound then. Oversize local "
-               "routes (attributes > 4096) are only injected towards sessions that negotiated extended messages (packing them for a 4096 session is C11).",
+               "routes (attributes > 4096) are only injected towards sessions that negotiated extended messages, and the speaker withdraws its own large probe "
+               "route after it has been verified (packing such attributes for a 4096 session is C11). A connection closed without any answer to our OPEN is "
+               "retried (another FSM event, e.g. the graceful-restart timer of the previous session, may win at that instant; only three silent closes in a row "
+               "are reported) and second sessions are approached a quarter second off the grid on which gobgp's timers were armed.",
     technique="runtime differential monitor: reference negotiation vs (a) fsm state after the real handleOpen/stateChange, (b) wire behaviour of the whole daemon in virtual time "
               "(raw-byte OPEN/UPDATE readers, exact timer instants)",
     rule="fn case = one neighbour configuration (families subset of {ipv4/ipv6 unicast, l3vpn-ipv4, evpn, rtc} or unconfigured, add-path send/receive per family, "
